@@ -11,7 +11,9 @@ FIELD_IDENTS = ["a", "b", "foo_bar", "x1", "some_long_name", "id", "type", "valu
 VARIANT_IDENTS = ["A", "B", "Foo", "FooBar", "Unit", "New", "Tup", "Named", "Foo_Bar", "X1", "lower", "HTTPServer", "Self_"]
 RENAMES = ["renamed", "my-key", "1st", "with space", "$dollar", "snake_case", "ünï", "a.b", ""]
 RULES = list(C.RULES)
-DOCS = [[" one line"], [" first", " second"], [" with `code` and <b>tags</b>"], ["no leading space"], [" contains */ a terminator"],
+DOCS = [["/etc/leading/slash"], [" ends with a star *"], ["*/"], [" first", "/second starts with a slash", " third */ closes"],
+        ["\n block with\n/slash/line\n and */ inside\n"], [" merge pattern } & { inside"], ["/**/"], ["/"],
+        [" one line"], [" first", " second"], [" with `code` and <b>tags</b>"], ["no leading space"], [" contains */ a terminator"],
         [" quote \" and backslash \\ "], ["\n multi\n line block\n "], [" unicode ü → ✓"], [""], [" export type Fake = 1;"]]
 EXPORT_TO = [None, None, None, "sub/", "nested/deep/", "custom/File.ts", "../up/", "shared.ts", "shared.ts", "sub/shared2.ts"]
 
@@ -423,6 +425,16 @@ class Gen:
                         f["ty"] = f["as_"]
                         f["as_"] = None
                 t["twin_of"], t["twin_kind"], t["no_ref"] = d["ident"], "as", True
+                self.add(t)
+            if d["docs"] or any(f["docs"] for f in fs):
+                t = copy.deepcopy(d)
+                t["ident"] = d["ident"] + "TwDoc"
+                t["rename"] = d["rename"] if d["rename"] is not None else d["ident"]
+                t["export_to"] = "twins/%sTwDoc.ts" % d["ident"]
+                t["docs"] = []
+                for f in (t["fields"] if t["kind"] == "struct" else [f for v in t["variants"] for f in v["fields"]]):
+                    f["docs"] = []
+                t["twin_of"], t["twin_kind"], t["no_ref"] = d["ident"], "docs", True
                 self.add(t)
             if any(f["inline"] for f in fs) and not any(f["as_"] is not None or f["type"] is not None for f in fs):
                 t = copy.deepcopy(d)
